@@ -114,6 +114,27 @@ def _get_minimum_numpy_datatype(
     raise ValueError(f"Unsupported data encoding: {data_encoding}")
 
 
+def _to_numpy_array(list_of_values: list, datatype: Optional[str]):
+    """Create a numpy array from the values of one variable.
+
+    Parameters
+    ----------
+    list_of_values : list
+        Parsed (or raw) values of one parameter, one per packet.
+    datatype : Optional[str]
+        The numpy dtype to use. None lets numpy infer the dtype.
+
+    Returns
+    -------
+    : numpy.ndarray
+    """
+    if datatype == "bytes":
+        # numpy does not discover the item size of bytes subclasses (BinaryParameter) correctly and would
+        # truncate every value to 4 bytes, so hand it plain bytes objects
+        list_of_values = [bytes(value) for value in list_of_values]
+    return np.asarray(list_of_values, dtype=datatype)
+
+
 def create_dataset(
         packet_files: Union[str, Path, Iterable[Union[str, Path]]],
         xtce_packet_definition: Union[str, Path, definitions.XtcePacketDefinition],
@@ -206,7 +227,7 @@ def create_dataset(
     for apid, data in data_dict.items():
         ds = xr.Dataset(
             data_vars={
-                key: (["packet"], np.asarray(list_of_values, dtype=datatype_mapping[apid][key]))
+                key: (["packet"], _to_numpy_array(list_of_values, datatype_mapping[apid][key]))
                 for key, list_of_values in data.items()
             }
         )
